@@ -375,6 +375,7 @@ func setAlgBig(j Job, r *JobResult, kind string, maxA int) {
 	for na := 0; na <= maxA; na++ {
 		avals := intRange(0, na-1)
 		cands := []int{0, na / 2, na - 1, 100, 101}
+		var bsets [][]int
 		for mask := 0; mask < 1<<uint(len(cands)); mask++ {
 			var bvals []int
 			seen := map[int]bool{}
@@ -384,6 +385,19 @@ func setAlgBig(j Job, r *JobResult, kind string, maxA int) {
 					bvals = append(bvals, c)
 				}
 			}
+			bsets = append(bsets, bvals)
+		}
+		if na >= 8 && na%8 == 0 {
+			// BOTH operands large: ranges that touch a in exactly one element (at its greatest, at its least),
+			// that are adjacent without touching, that overlap by half, that equal a, and the even numbers
+			// (after seeded change C13-15, a merge of two sorted operands of >= 32 elements each)
+			var evens []int
+			for v := 0; v <= 2*na; v += 2 {
+				evens = append(evens, v)
+			}
+			bsets = append(bsets, intRange(na-1, 2*na), intRange(-na, 0), intRange(na, 2*na), intRange(na/2, na+na/2), intRange(0, na-1), evens)
+		}
+		for _, bvals := range bsets {
 			for fc := 0; fc < forms*forms; fc++ {
 				fa, fb := fc%forms, fc/forms
 				for _, opn := range setAlgOps {
